@@ -247,8 +247,8 @@ Token& Lexer::lex(Token& result) {
     // Check for escape sequences.
     if (c == '$' && columnNumber != 0) {
       // If this is a newline escape, consume it.
-      if ((bufferPos + 1 != buffer.end() && bufferPos[1] == '\n') ||
-          (bufferPos + 2 != buffer.end() && bufferPos[1] == '\r' &&
+      if ((buffer.end() - bufferPos > 1 && bufferPos[1] == '\n') ||
+          (buffer.end() - bufferPos > 2 && bufferPos[1] == '\r' &&
            bufferPos[2] == '\n')) {
         getNextChar();
         getNextChar();
